@@ -144,8 +144,15 @@ Definition copy_ok (c : copy_site) : bool :=
    stash, a channel, a slice) that clone()/Copy() hands to the copy as it is makes the two runtimes
    share what it points to: it must go through the cloner's translation, be built afresh, or stay
    zero.  Host settings that are plain values or funcs (debugger, random, limits) may be carried over. *)
+(* The table covers runtime.clone, Otto.Copy/clone and every function that is handed the cloner (the
+   clone methods of the stashes and of the function/arguments payloads, objectClone, the global
+   table): a field filled with a reference read from the source as it is - e.g. the outer link of
+   an object environment - is accepted only when what it points to is a frozen type (the compiled
+   node of a script function). *)
 Definition clone_field_ok (c : clone_field) : bool :=
-  negb (seqb (cf_how c) "verbatim" && cf_ref c) || allowed (cf_type c ++ "." ++ cf_field c) (cf_func c).
+  negb (seqb (cf_how c) "verbatim" && cf_ref c) ||
+  frozen_class (strip_star (cf_ftype c)) ||
+  allowed (cf_type c ++ "." ++ cf_field c) (cf_func c).
 
 (* a native closure over an object/runtime of its creator keeps working on the TEMPLATE's object or
    runtime when it is called in a copy: each one needs an allow-list entry for exactly its kind of use.
@@ -185,6 +192,10 @@ Definition table_sane (vars : list var_entry) (fields : list field_entry) (calls
   existsb (fun c => seqb (cf_type c) "otto.runtime" && seqb (cf_field c) "scope" && seqb (cf_how c) "zero") cfields &&
   existsb (fun c => seqb (cf_type c) "otto.Otto" && seqb (cf_field c) "runtime" && seqb (cf_how c) "cloned" && seqb (cf_func c) "otto.(*Otto).Copy") cfields &&
   existsb (fun c => seqb (cf_type c) "otto.Otto" && seqb (cf_field c) "Interrupt" && seqb (cf_func c) "otto.(*Otto).Copy") cfields &&
+  existsb (fun c => seqb (cf_type c) "otto.objectStash" && seqb (cf_field c) "outr" && seqb (cf_how c) "cloned") cfields &&
+  existsb (fun c => seqb (cf_type c) "otto.dclStash" && seqb (cf_field c) "outr" && seqb (cf_how c) "cloned") cfields &&
+  existsb (fun c => seqb (cf_type c) "otto.global" && seqb (cf_field c) "URIErrorPrototype" && seqb (cf_how c) "cloned") cfields &&
+  existsb (fun c => seqb (cf_type c) "otto.nodeFunctionObject" && seqb (cf_field c) "node" && seqb (cf_how c) "verbatim") cfields &&
   (* copy detection works: objectClone's `*out = *in` is reported *)
   existsb (fun c => seqb (k_type c) "otto.object" && seqb (k_func c) "otto.objectClone") copies &&
   forallb (has_var vars)
